@@ -23,7 +23,7 @@ props.prop(
     not_decided='which choices a picker offers or selects, distinctness of the image axes, callback-property values',
     assumptions=['LayerArtistContainer notifies synchronously on every mutation'])
 props.also('C18',
-           'membership of a layer in the artist container by identity; change detectors compare with and store the same field; that the dataset-removed subscription of viewers is unfiltered')
+           'membership of a layer in the artist container by identity; change detectors compare with and store the same field; that the dataset-removed subscription of viewers is unfiltered; that a change detector does not remember a filtered selection of a field the set-up reads whole')
 
 M = 'glue.core.message.'
 V = 'glue.viewers.common.viewer.Viewer'
